@@ -106,9 +106,17 @@ def check_spaces(orc):
                    for _ in range(budget))
         exhaustive = False
     count = 0
+    shared = np.zeros(len(nvec), dtype=np.int64)   # a caller-owned buffer
     for vec in vectors:
         count += 1
-        enc = list(vec) if count % 3 else np.array(vec)
+        block = (count // 8) % 3      # runs of 8 vectors per encoding
+        if block == 0:
+            enc = np.array(vec)
+        elif block == 1:
+            enc = list(vec)
+        else:
+            shared[:] = vec      # reused and mutated in place
+            enc = shared
         try:
             a = pspace.get_action(enc)
         except Exception as e:
